@@ -23,7 +23,7 @@ Tie to /repo on every run (exact, Gaussian-integer data, no tolerance):
     matrix of Spec/GateSpec.v for all parameters, is unitary, and constructor roles are as documented.
 This module also holds the helpers shared with harness/c02.py (density matrices).
 """
-STATIC = ["C01/Props", "C01/Examples", "C01/PropsHistory", "C01/ExamplesHistory", "Spec/GateSpec", "Base/TrigMat", "Base/SemProps",
+STATIC = ["C01/Props", "C01/Examples", "C01/PropsHistory", "C01/ExamplesHistory", "C01/PropsLayout", "Spec/GateSpec", "Base/TrigMat", "Base/SemProps",
           "Base/SemExamples"]
 import hashlib
 import itertools
@@ -145,14 +145,40 @@ def np_matrix(M):
 
 
 def make_real_gate(g):
+    """g["kw"]: constructor keywords that do not change the documented operator (Unitary: name / trainable / check_unitary);
+    g["mrepr"]: representation of the Unitary matrix (harness/repr_inv.py); g["attrs"]: labels assigned after construction;
+    names "I" (any number of targets) and "Align" (g["delay"]) are the library's identity gates"""
     from qibo import gates
     if g["name"] == "Unitary":
-        r = gates.Unitary(np_matrix(g["intent"][2]), *g["args"], check_unitary=False)
+        M = np_matrix(g["intent"][2])
+        if g.get("mrepr"):
+            from harness import repr_inv
+            M, _ = repr_inv.rebuild(g["mrepr"], M)
+        kw = dict(g.get("kw") or {})
+        kw.setdefault("check_unitary", False)
+        r = gates.Unitary(M, *g["args"], **kw)
+    elif g["name"] == "Align":
+        r = gates.Align(g["args"][0], int(g.get("delay", 0)))
     else:
         r = getattr(gates, g["name"])(*g["args"])
     if g.get("extra"):
         r = r.controlled_by(*g["extra"])
+    for k, v in (g.get("attrs") or {}).items():
+        setattr(r, k, v)
     return r
+
+
+def identity_gate(rng, n):
+    """gates.I on 1..n qubits in any order (optionally controlled) or gates.Align: documented operator = identity"""
+    if rng.random() < 0.3:
+        q = rng.randrange(n)
+        return {"name": "Align", "args": [q], "delay": rng.choice([0, 1, 7]), "extra": [], "intent": [[], [q], [[[1, 0], [0, 0]], [[0, 0], [1, 0]]]]}
+    k = rng.randint(1, min(n, 3))
+    ts = rng.sample(range(n), k)
+    rest = [q for q in range(n) if q not in ts]
+    cs = rng.sample(rest, rng.choice([0, 0, min(1, len(rest))]))
+    eye = [[[1 if i == j else 0, 0] for j in range(2 ** k)] for i in range(2 ** k)]
+    return {"name": "I", "args": ts, "extra": cs, "intent": [sorted(cs), ts, eye]}
 
 
 def describe(real, g):
@@ -208,6 +234,8 @@ def named_gate(rng, n, name, qubits, extra):
 
 
 def random_gate(rng, n, amp, max_arity=3, p_named=0.2):
+    if rng.random() < 0.06:
+        return identity_gate(rng, n)
     if rng.random() < p_named:
         names = [nm for nm in NAMED if NAMED[nm][0] + NAMED_ARITY[nm] <= n]
         name = rng.choice(names)
@@ -832,6 +860,8 @@ def main(run):
     oblige_theorems(run, "C01/Props")
     # histories on long-lived objects: observations are the Spec operator of the CURRENT store (PropsHistory.v)
     oblige_theorems(run, "C01/PropsHistory")
+    # representation independence: layouts denote their logical array; labels are not operator data (round 5)
+    oblige_theorems(run, "C01/PropsLayout")
     # matrix-level facts about embed / cembed proved from the same index lemmas (premises of C05, C07, C09)
     oblige_theorems(run, "Base/SemProps")
     strings_check(run, rng)
@@ -854,6 +884,9 @@ def main(run):
     malformed_check(run, rng)
     fused_check(run, rng)
     declared_check(run, rng)
+    from harness import c01_repr
+    c01_repr.labels_check(run, random.Random(run.seed * 104729 + 11), dm=False)
+    c01_repr.repr_check(run, random.Random(run.seed * 104729 + 12), dm=False)
     from harness import c01_history
     c01_history.check(run, random.Random(run.seed * 7919 + 101), "sv")
     from harness import c01_tables
@@ -861,6 +894,12 @@ def main(run):
     from harness import c01_qulacs
     c01_qulacs.run_qulacs(run, rng, 40 if run.tier == "quick" else 300)
     return run.finish(level="proof", rule=(
+        "labels (harness/c01_repr.py): Unitary(name= / trainable= / check_unitary=) and draw_label with values colliding with other "
+        "classes' names, two gates with one label, gates.I(*q) / gates.Align mixed in: execution, Circuit.unitary, fused circuit, deep "
+        "copy, gate.matrix against circ_mat of the declared operators (exact, Coq); representations (harness/repr_inv.py): initial "
+        "state and Unitary matrix as C / Fortran / transposed / strided / sliced / reversed views, read-only, big-endian, complex64, "
+        "float / int arrays, lists, tuples, circuits whose first operation is each kind of gate, direct backend.apply_gate: exact "
+        "equality with the canonical run (itself against the Coq spec), inputs not written, results not aliased; "
         "histories (harness/c01_history.py): execute / set_parameters through the circuit, the gate object, a fused / shallow / "
         "`+` alias / derive (controlled_by with 1..3 controls after an in-place update, dagger, on_qubits, invert, deep copy, fuse "
         "of fuse) / execute again, every parametrised class + Unitary, trainable True and False, same object twice; exact ones "
@@ -884,6 +923,9 @@ def replay(run, data):
     if rp.get("mechanism") == "history":
         from harness import c01_history
         return c01_history.replay(run, data)
+    if rp.get("mechanism") in ("labels", "repr", "matrix_repr"):
+        from harness import c01_repr
+        return c01_repr.replay(run, data)
     if rp.get("mechanism") == "declared":
         return declared_replay(run, data)
     if rp.get("mechanism") == "fused" or data.get("key", "").startswith("unitary_skips_fused"):
